@@ -59,7 +59,28 @@ def time_bound(o):
     return max(0, o["tdial"]) + 3 * max(0, o["tdata"])
 
 
+def spec_e2e(o):
+    """the property on one run of the command line (`sx socks -p PORT IP/32 --json -t T`)"""
+    obs, st = o["obs"], sent_stream(o)
+    if obs == 0:
+        if st is None or st[:2] != [5, 0]:
+            return "sx socks printed a record although the peer did not answer 05 00"
+        r = o["rec"] or {}
+        if r.get("ip") != o["ip"] or r.get("port") != o["port"] or r.get("version") != 5 or r.get("scan") != "socks":
+            return "sx socks printed %s for the probed %s:%s" % (r, o["ip"], o["port"])
+    elif obs == 11:
+        return "sx socks did not exit (%s)" % o["err"]
+    elif st is not None and st[:2] == [5, 0]:
+        return "sx socks printed no record (%s) although the peer answered 05 00 in time" % (o["err"] or o.get("stderr", ""))[-200:]
+    # --timeout is both the connect and the data timeout; process start-up and exit delay are granted 600 ms
+    if o["dur_ms"] > 4 * o["tdata"] + 600:
+        return "sx socks -t %dms took %.0f ms against a %s peer" % (o["tdata"], o["dur_ms"], o["class"])
+    return None
+
+
 def spec_on_impl(o):
+    if o.get("e2e"):
+        return spec_e2e(o)
     obs = o["obs"]
     if obs >= 98:
         return None  # harness trouble is reported as a broken tie, not as a property failure
@@ -157,14 +178,28 @@ def parse_eval(ctx, out, nrows):
 
 
 def evaluate(ctx, rows, tag, nshards):
-    """returns {row index: codes} for the rows that disagree with the model"""
-    size = max(1, (len(rows) + nshards - 1) // nshards)
-    parts = [rows[i:i + size] for i in range(0, len(rows), size)]
-    outs = ctx.coq_eval_many([("%s_%d" % (tag, i), case_file(p)) for i, p in enumerate(parts)])
+    """returns {row index: codes} for the rows that disagree with the model.  End-to-end rows (command line) are compared
+    on the decision only: a record is printed iff the model reports."""
+    idx_of = [i for i, o in enumerate(rows) if not o.get("e2e")]
+    e2e_of = [i for i, o in enumerate(rows) if o.get("e2e")]
     bad = {}
-    for k, (part, out) in enumerate(zip(parts, outs)):
-        for idx, codes in parse_eval(ctx, out, len(part)):
-            bad[k * size + idx] = codes
+    if idx_of:
+        direct = [rows[i] for i in idx_of]
+        size = max(1, (len(direct) + nshards - 1) // nshards)
+        parts = [direct[i:i + size] for i in range(0, len(direct), size)]
+        outs = ctx.coq_eval_many([("%s_%d" % (tag, i), case_file(p)) for i, p in enumerate(parts)])
+        for k, (part, out) in enumerate(zip(parts, outs)):
+            for idx, codes in parse_eval(ctx, out, len(part)):
+                bad[idx_of[k * size + idx]] = codes
+    if e2e_of:
+        # the CLI has one --timeout for both; evaluate with obs := report: code 1 absent <=> the model reports
+        probe = [dict(rows[i], obs=0, dur_ms=0, greet=None, rec=None, cancel=-1, tdial=rows[i]["tdata"]) for i in e2e_of]
+        out = ctx.coq_eval("%s_e2e" % tag, case_file(probe))
+        flagged = dict(parse_eval(ctx, out, len(probe)))
+        for j, i in enumerate(e2e_of):
+            model_reports = 1 not in flagged.get(j, [])
+            if model_reports != (rows[i]["obs"] == 0):
+                bad[i] = [1]
     return bad
 
 
@@ -177,6 +212,26 @@ def rerun(ctx, rows, tag):
     if not ok:
         return None
     return ctx.read_jsonl(os.path.join(ctx.work, "%s.jsonl" % tag))
+
+
+def build_sx(ctx):
+    """the real command-line binary, for the end-to-end cases (ties command/socks.go behaviourally)"""
+    exe = os.path.join(ctx.work, "sx")
+    rc, out = verif.sh(["go", "build", "-o", exe, "."], env=verif.GOENV, cwd=verif.REPO, timeout=900)
+    if rc != 0:
+        ctx.broken.append(("correspondence: the sx binary does not build", out[-1500:]))
+        return None
+    return exe
+
+
+def corpus_rows(ctx):
+    """regression inputs kept under corpus/: run first, judged like generated cases"""
+    d = os.path.join(verif.ROOT, "corpus", ctx.pid)
+    cases = []
+    for f in sorted(os.listdir(d)) if os.path.isdir(d) else []:
+        if f.endswith(".json"):
+            cases += json.load(open(os.path.join(d, f)))
+    return (rerun(ctx, cases, "corpus") or []) if cases else []
 
 
 def shape(o):
@@ -193,8 +248,8 @@ def report(ctx, o, why):
         ctx.suppressed = getattr(ctx, "suppressed", 0) + 1
         return
     path = ctx.write_replay("case%d" % o["id"], {
-        "property": "C09", "what": why, "input": {k: o[k] for k in (
-            "id", "class", "tdial", "tdata", "cancel", "mode", "read_first", "actions", "ip")},
+        "property": "C09", "what": why, "input": dict({k: o[k] for k in (
+            "id", "class", "tdial", "tdata", "cancel", "mode", "read_first", "actions", "ip")}, e2e=bool(o.get("e2e"))),
         "observed": {"outcome": OBS.get(o["obs"], o["obs"]), "err": o["err"], "dur_ms": o["dur_ms"], "greet": o["greet"],
                      "rec": o["rec"], "port": o["port"]},
         "replay_cmd": "bin/check C09 --replay <this file>"})
@@ -246,11 +301,14 @@ def run(ctx):
     rows = []
     if ctx.harness_build("c09"):
         args = ["-out", "cases.jsonl", "-seed", ctx.seed, "-n", 330 if quick else 3000, "-sample", 200]
+        sx = build_sx(ctx)
+        if sx:
+            args += ["-e2e", sx]
         if not quick:
             args.append("-all")
         ok, _ = ctx.harness_run("c09", args, timeout=3000)
         if ok:
-            rows = ctx.read_jsonl(os.path.join(ctx.work, "cases.jsonl"))
+            rows = corpus_rows(ctx) + ctx.read_jsonl(os.path.join(ctx.work, "cases.jsonl"))
     hard, early = {}, 0
     if model_ok and rows:
         rows, hard, early = settle(ctx, rows, "cases")
@@ -312,6 +370,7 @@ def replay(ctx, path):
         return 1
     c = dict(r["input"])
     c.update({"port": 0, "obs": 0, "err": "", "dur_ms": 0, "greet": None, "rec": None, "tries": 0})
+    c["e2e"] = (build_sx(ctx) or "") if c.get("e2e") else ""
     worst = None
     for k in range(3):
         got = rerun(ctx, [c], "replay%d" % k)
